@@ -37,14 +37,22 @@ FromLog(sl) == [kind |-> sl.kind,
                 ts |-> [i \in 1..Len(sl.ts) |-> <<ToSet(sl.ts[i][1]), sl.ts[i][2]>>],
                 vars |-> ToSet(sl.vars), deg |-> sl.deg,
                 map |-> MapOf(sl.map), nl |-> Len(sl.map),
-                anc |-> sl.anc, gen |-> {}, ncons |-> sl.ncons]
+                anc |-> sl.anc, gen |-> {}, ncons |-> sl.ncons, cons |-> sl.cons, name |-> sl.name]
+FreshL(kind, nm) == [kind |-> kind, ts |-> << >>, vars |-> {}, deg |-> -1, map |-> << >>, nl |-> 0,
+                     anc |-> 0, gen |-> {}, ncons |-> 0, cons |-> << >>, name |-> nm]
 Logged(step) == [s \in Slots |-> FromLog(step.slots[s])]
 NoGen(r) == [r EXCEPT !.gen = {}]
 
 \* ---- which specification function an op denotes ----
 Items(x) == x       \* a literal dict operand is logged as a raw item list <<key, value>>
 Opd(oo, j, lit) == IF j = 0 THEN lit ELSE ItemsOf(oo[j].ts)
-Target(opr) == IF opr[1] = "copy" THEN opr[3] ELSE opr[2]
+\* the slot an operation writes (0: none - every object must be unchanged)
+Target(opr) == CASE opr[1] \in {"copy", "neg", "ctor", "info"} -> opr[3]
+                 [] opr[1] = "bin" -> opr[6]
+                 [] opr[1] = "binscalar" -> opr[5]
+                 [] opr[1] \in {"pow", "div"} -> opr[4]
+                 [] opr[1] \in {"value", "mulraise", "poke", "toenum"} -> 0
+                 [] OTHER -> opr[2]
 Apply(opr, oo) ==
   LET s == opr[2] r == oo[s] IN
   CASE opr[1] = "setitem" -> [oo EXCEPT ![s] = SetItemR(r, opr[3], opr[4])]
@@ -63,17 +71,40 @@ Apply(opr, oo) ==
     \* the generated names and the number of recorded constraints follow the log
     [] opr[1] = "addcons" -> [oo EXCEPT ![s] = [r EXCEPT !.gen = @ \cup (r.anc..(Steps[l].slots[s].anc - 1)), !.ncons = @ + 1]]
     [] opr[1] = "toenum" -> oo
+    [] opr[1] = "bin" -> [oo EXCEPT ![opr[6]] = BinR(opr[3], r, Opd(oo, opr[4], opr[5]), opr[7])]
+    [] opr[1] = "binscalar" -> [oo EXCEPT ![opr[5]] = BinScalarR(opr[3], r, opr[4], opr[6])]
+    [] opr[1] = "neg" -> [oo EXCEPT ![opr[3]] = NegR(r)]
+    [] opr[1] = "pow" -> [oo EXCEPT ![opr[4]] = PowR(r, opr[3])]
+    [] opr[1] = "div" -> [oo EXCEPT ![opr[4]] = DivR(r, opr[3])]
+    [] opr[1] \in {"ctor", "info"} -> [oo EXCEPT ![opr[3]] = CopyR(r)]
     [] OTHER -> oo
 KnownOp(opr) == opr[1] \in {"setitem", "augadd", "iadd", "isub", "update", "imul", "iadd_scalar", "imul_scalar", "ipow",
-                            "clear", "refresh", "copy", "addcons", "toenum"}
+                            "clear", "refresh", "copy", "addcons", "toenum", "bin", "binscalar", "neg", "pow", "div",
+                            "value", "mulraise", "poke", "ctor", "info"}
 
 \* ---- clauses ----
 Clause(name, cond) == cond \/ (PrintT(<<"QVVIOL", name, tid, l - 1>>) /\ FALSE)
 First == l = 1
 TermsFree == St.op[1] = "addcons"
 TermsMatchP == IF First THEN TRUE ELSE \A s \in Slots : (TermsFree /\ s = Target(St.op)) \/ PolyOf(pred[s].ts) = PolyOf(o[s].ts)
-KindMatchP == IF First THEN TRUE ELSE \A s \in Slots : pred[s].kind = o[s].kind
-ImplNoRaiseP == IF First THEN TRUE ELSE St.raised = ""
+\* the result has the class of the model operand; for two models of different classes only the value is judged
+TwoKinds == St.op[1] = "bin" /\ St.op[4] # 0 /\ prev[St.op[2]].kind # prev[St.op[4]].kind
+KindMatchP == IF First THEN TRUE ELSE \A s \in Slots : (TwoKinds /\ s = Target(St.op)) \/ pred[s].kind = o[s].kind
+ImplNoRaiseP == IF First THEN TRUE ELSE IF St.op[1] = "mulraise" THEN St.raised = "KeyError" ELSE St.raised = ""
+\* value functions agree with direct evaluation of the stored polynomial (C05)
+ImplValueP == IF First THEN TRUE ELSE
+    (St.op[1] = "value" => LET ss == St.op[2] r == o[ss] IN
+        \A q \in 1..Len(St.values) : St.values[q] = Eval(IsSpin(r.kind), PolyOf(r.ts), ToSet(St.op[3])))
+\* create_from_info(get_info(M)) reproduces type, terms, name, mapping, ancilla count and constraints (C19)
+ConsOf(sl) == [q \in 1..Len(sl.cons) |-> <<sl.cons[q][1], FromRaw(IsSpin(sl.kind), sl.cons[q][2])>>]
+ImplInfoSameP == IF First THEN TRUE ELSE
+    (St.op[1] = "info" => LET a == Steps[l - 1].slots[St.op[2]] b == Steps[l - 1].slots[St.op[3]] IN
+        /\ b.kind = a.kind /\ FromRaw(IsSpin(a.kind), b.ts) = FromRaw(IsSpin(a.kind), a.ts) /\ b.name = a.name
+        /\ MapOf(b.map) = MapOf(a.map) /\ b.anc = a.anc /\ ConsOf(b) = ConsOf(a) /\ St.info_equal)
+\* copy() / copy constructor keep terms, ancilla count and constraints
+ImplCopySameP == IF First THEN TRUE ELSE
+    (St.op[1] \in {"copy", "ctor"} => LET a == Steps[l - 1].slots[St.op[2]] b == Steps[l - 1].slots[St.op[3]] IN
+        /\ b.kind = a.kind /\ b.anc = a.anc /\ ConsOf(b) = ConsOf(a))
 ImplUpperBoundsP == IF First THEN TRUE ELSE \A s \in Slots : UpperBoundsR(o[s]) /\ St.slots[s].nvars >= Cardinality(TrueVars(o[s]))
 RevInverse(sl) == LET m == MapOf(sl.map) rv == MapOf(sl.rev) IN
                   /\ DOMAIN rv = {m[x] : x \in DOMAIN m} /\ \A x \in DOMAIN m : rv[m[x]] = x
@@ -107,8 +138,11 @@ ImplEnumLabelsP == IF First THEN TRUE ELSE
            /\ (~St.op[3] => out = Relabel(PolyOf(r.ts), r.map))
            \* ancillas created by a reduction (hook H1): strictly above every reported variable, not a mapped label
            /\ \A z \in ToSet(St.cert_z) : z >= n /\ z \notin {r.map[x] : x \in DOMAIN r.map})
-AllOK == TermsMatchP /\ KindMatchP /\ ImplNoRaiseP /\ ImplUpperBoundsP /\ ImplMappingBijectionP /\ ImplStoredCanonicalP
+AllOK == ImplValueP /\ ImplInfoSameP /\ ImplCopySameP /\ TermsMatchP /\ KindMatchP /\ ImplNoRaiseP /\ ImplUpperBoundsP /\ ImplMappingBijectionP /\ ImplStoredCanonicalP
          /\ ImplRefreshExactP /\ ImplAncCoversP /\ ImplAncFreshP /\ ImplUnchangedOthersP /\ ImplEnumLabelsP
+ImplValue == Clause("ImplValue", ImplValueP)
+ImplInfoSame == Clause("ImplInfoSame", ImplInfoSameP)
+ImplCopySame == Clause("ImplCopySame", ImplCopySameP)
 TermsMatch == Clause("TermsMatch", TermsMatchP)
 KindMatch == Clause("KindMatch", KindMatchP)
 ImplNoRaise == Clause("ImplNoRaise", ImplNoRaiseP)
@@ -122,7 +156,7 @@ ImplUnchangedOthers == Clause("ImplUnchangedOthers", ImplUnchangedOthersP)
 ImplEnumLabels == Clause("ImplEnumLabels", ImplEnumLabelsP)
 
 TraceInit == /\ tid \in 1..Len(Traces) /\ l = 1
-             /\ o = [s \in Slots |-> Fresh(Traces[tid].kinds[s])] /\ op = <<"init">>
+             /\ o = [s \in Slots |-> FreshL(Traces[tid].kinds[s], Traces[tid].names[s])] /\ op = <<"init">>
              /\ pred = o /\ prev = o
 TraceNext == /\ l <= Len(Steps) /\ (AllOK = TRUE) /\ (KnownOp(Steps[l].op) = TRUE)
              /\ LET p == Apply(Steps[l].op, o) IN
